@@ -170,10 +170,14 @@ def rehearse_rounds(sub: Any, app_id: int, rounds: List[Dict[str, int]], sample:
     plain = [str(ins) for ins in sub.instructions]
     for r, vals in enumerate(rounds):
         c = copy.copy(sub)
+        mine = dict(vals)        # the caller's own dictionary, passed as it is (a host may use it again for the next round)
         try:
-            c.instantiate(app_id, dict(vals))
+            c.instantiate(app_id, mine)
         except Exception as e:  # noqa: BLE001
             raise Violation("sdk", f"sdk-exception|instantiate-round|{type(e).__name__}", {"round": r, "error": str(e)[:200], **sample})
+        if mine != vals:
+            raise Violation("template", "template|instantiate-changed-the-callers-values",
+                            {"round": r, "passed": vals, "left": mine, **sample})
         if len(c.instructions) != len(plain):
             raise Violation("template", "template|round-changed-instruction-count", {"round": r, **sample})
         for (i, j, name) in sites:
